@@ -380,7 +380,44 @@ def check_C10(chk, tier):
     run_phase(chk, "builtin-orderings/bijection (enumerated)", H + "h_factor.c", cs, ["C10."], prec="d", budget_s=200, bounds="all 512 3x3 patterns x {MMD_ATA, MMD_AT_PLUS_A, COLAMD}, concrete values (integer-only code: enumeration)", validate_samples=0)
 
 
-REGISTRY = {"C10": check_C10, "C08": check_C08, "C18": check_C18, "C05": check_C05, "C06": check_C06, "C01": check_C01, "C02": check_C02, "C03": check_C03, "C04": check_C04}
+# ------------------------------------------------------------------------------------------------ C14 kernels
+def kcase(mode, m, n, pat, tune="t122", symcols=-1, p1=ord("N"), p2=2, p3=2, p4=1, p5=0):
+    return (mode, m, n, hex(pat)) + tuple(T[tune]) + (symcols, p1, p2, p3, p4, p5)
+
+
+def kernel_cases(tier, prec="d"):
+    cs = []; cplx = prec in "zc"; q = tier == "quick"
+    spell = "NnTtCc"
+    shapes = [(2, 3, 0b111111), (3, 2, 0b101101), (2, 2, 0b0111), (1, 3, 0b101), (3, 1, 0b110)] + ([] if q else [(3, 3, 511), (3, 4, 0xB6D), (4, 2, 0xA7)])
+    if cplx and q: shapes = [(2, 3, 0b111111), (3, 1, 0b110)]
+    for (m, n, pat) in shapes:
+        for ch in spell:
+            for ak, bk in ((2, 2), (0, 2), (2, 0), (1, 1), (2, 1), (0, 0)) if not (cplx and q) else ((2, 2), (0, 1), (1, 0)):
+                cs.append(kcase(1, m, n, pat, p1=ord(ch), p2=ak, p3=bk))
+            cs.append(kcase(2, m, n, pat, p1=ord(ch), p2=2 if not cplx else 1, p3=2 if not cplx else 0, p4=2, p5=4 * 1 + 2)); cs.append(kcase(2, m, n, pat, p1=ord(ch), p2=2 if not cplx else 1, p3=1, p4=3, p5=4 * 2 + 0))
+    fshapes = [(3, 511, "t122", 0), (3, 511, "t212", 0), (3, C.band(3, 1, 1), "t111", 0), (5, C.dense(5, 5), "tn1n", 0), (5, C.dense(5, 5), "t122", 0), (6, C.band(6, 2, 2), "t313", 0), (9, C.dense(9, 9), "t1_8_8", 0), (10, C.dense(10, 10), "tn1n", 0)]
+    if cplx and q: fshapes = [(3, 511, "t122", 0), (5, C.dense(5, 5), "tn1n", 0), (5, C.dense(5, 5), "t122", 0)]
+    if not cplx: fshapes += [(2, 15, "t122", -1), (3, C.band(3, 1, 1), "t122", -1), (3, 511, "t122", 4)]
+    if not q: fshapes += [(12, C.dense(12, 12), "tn1n", 0), (9, C.arrow(9), "t4_1_8_2d", 0), (3, 511, "t122", -1)]
+    for (n, pat, tn, sc) in fshapes:
+        for up, dg in (("L", "U"), ("U", "N")):
+            for tr in "NTC": cs.append(kcase(3, n, n, pat, tune=tn, symcols=sc, p1=ord(up), p2=ord(tr), p3=ord(dg)))
+        for tc in (0, 1, 2):
+            cs.append(kcase(4, n, n, pat, tune=tn, symcols=sc, p1=tc, p2=3 if sc == 0 else 2, p3=2)); cs.append(kcase(4, n, n, pat, tune=tn, symcols=sc, p1=tc, p2=1, p3=0))
+    return list(dict.fromkeys(cs))
+
+
+def check_C14(chk, tier):
+    chk.assumptions += COMMON_ASSUME + ["strides incx = incy = 1 (others are documented as not implemented and abort)", "factor pairs for the triangular kernels come from real ?gstrf runs (concrete generic matrices: singleton and multi-column supernodes per tuning, plus symbolic small ones)"]
+    for prec in precs(tier):
+        run_phase(chk, "kernels/" + prec, H + "h_kernels.c", kernel_cases(tier, prec), ["C14."], prec=prec, budget_s=200 if tier == "quick" else 1800,
+                  bounds="gemv/gemm: m x n <= 3x3 (3x4 thorough), all six flag spellings, alpha/beta in {0,1,symbolic}, nrhs<=3, ldb != ldc; trsv/gstrs: n<=10 (12) factor pairs from ?gstrf, all uplo/trans/diag, nrhs<=3",
+                  qtimeout_ms=(3000 if prec in "zc" else 8000) if tier == "quick" else 60000, env=CPLX_ENV if prec in "zc" else None, key_extra=lambda c: {"mode": str(c[0]), "flag": chr(c[11]) if c[0] in (1, 2) else str(c[11])})
+    if tier != "quick":
+        run_phase(chk, "kernels/d/vendor-blas", H + "h_kernels.c", kernel_cases(tier, "d"), ["C14."], prec="d", vendor=True, budget_s=1800, bounds="USE_VENDOR_BLAS path with reference BLAS")
+
+
+REGISTRY = {"C14": check_C14, "C10": check_C10, "C08": check_C08, "C18": check_C18, "C05": check_C05, "C06": check_C06, "C01": check_C01, "C02": check_C02, "C03": check_C03, "C04": check_C04}
 
 
 def run(pid, tier):
